@@ -1,0 +1,47 @@
+//go:build verif
+
+package bundle
+
+import "net/url"
+
+// Thin wrappers of unexported functions for the external verification
+// harness. Compiled only with the "verif" build tag.
+
+// VerifEntriesInPossibleKeyOrder runs entriesInPossibleKeyOrder on entries
+// given as (Variants, Variant-Key) pairs and returns the positions of the
+// input entries in the result.
+func VerifEntriesInPossibleKeyOrder(variants, variantKeys []string) ([]int, error) {
+	u, _ := url.Parse("https://verif.example/")
+	es := make([]*indexEntry, len(variants))
+	pos := map[*indexEntry]int{}
+	for i := range variants {
+		es[i] = &indexEntry{Request: Request{URL: u}, Variants: variants[i], VariantKey: variantKeys[i]}
+		pos[es[i]] = i
+	}
+	res, err := entriesInPossibleKeyOrder(es)
+	if err != nil {
+		return nil, err
+	}
+	out := make([]int, len(res))
+	for i, e := range res {
+		out[i] = pos[e]
+	}
+	return out, nil
+}
+
+func VerifParseVariants(s string) ([][]string, error) {
+	v, err := parseVariants(s)
+	return [][]string(v), err
+}
+
+func VerifNumberOfPossibleKeys(v [][]string) (int, error) {
+	return Variants(v).numberOfPossibleKeys()
+}
+
+func VerifIndexInPossibleKeys(v [][]string, key []string) int {
+	return Variants(v).indexInPossibleKeys(key)
+}
+
+func VerifPossibleKeyAt(v [][]string, index int) []string {
+	return Variants(v).possibleKeyAt(index)
+}
